@@ -289,9 +289,20 @@ func vFdLifecycle(kind string, rnd *rand.Rand, rec *vFdRec) {
 			return
 		}
 		done := make(chan struct{})
-		go func() { p.Wait(); close(done) }()
-		time.Sleep(time.Millisecond)
-		p.Close()
+		// the close message may meet wake-up messages that are still in the eventfd (written before the loop has drained them)
+		pre := rnd.Intn(3)
+		for i := 0; i < pre; i++ {
+			p.Trigger()
+		}
+		if rnd.Intn(2) == 0 {
+			p.Close() // before the loop even starts
+			go func() { p.Wait(); close(done) }()
+		} else {
+			go func() { p.Wait(); close(done) }()
+			time.Sleep(time.Duration(rnd.Intn(1000)) * time.Microsecond)
+			p.Trigger()
+			p.Close()
+		}
 		select {
 		case <-done:
 		case <-time.After(2 * time.Second):
